@@ -6,6 +6,7 @@ git -C /repo diff --quiet || { echo "/repo not clean"; exit 2; }
 git -C /repo apply "$d/patch.diff" || { echo "patch does not apply"; exit 2; }
 /verif/check "$p" --tier "$t" > /tmp/seedrun.$$.log 2>&1; rc=$?
 git -C /repo checkout -- .
+git -C /verif checkout -- evidence lean/Chrono/Extracted 2>/dev/null
 grep -E "VIOLATION|failing input|no longer checks|-> ok|-> VIOLATION" /tmp/seedrun.$$.log | head -8
 rm -f /tmp/seedrun.$$.log
 echo "rc=$rc"
